@@ -52,15 +52,33 @@ def oracle(case) -> list[Failure]:
             fails.append(Failure("injection-changed-method-state", case, "method state differs right after inject_code"))
         edited = False
         for k in range(case["after"]):
+            if case.get("second") and k == case["second"][0]:
+                run.inject(case["second"][1])
             if case.get("edit") and k == case["edit"][0]:
                 cur = [(ln.id, ln.content) for ln in run.engine.method_manager._method.lines]
                 new = apply_edit_script(cur, case["edit"][1])
                 m = run.Mdl.Method(lines=[run.Mdl.MethodLine(id=i, content=c) for i, c in new], version=0)
                 edited = run.edit(m) == "ok"
             snap = run.tick()
-        if snap["tags"].get("Method Status") == "Error" or snap["tags"].get("System State") != "Running":
+        if snap["raw_tags"].get("Method Status") == "Error":
+            # a valid snippet must not put the run into the error state: compare with the run without the injection
+            ref = EngineRun(case["pcode"])
+            try:
+                rs = None
+                for _ in range(case["at"] + case["after"]):
+                    rs = ref.tick()
+                ref_err = rs["raw_tags"].get("Method Status") == "Error"
+            finally:
+                ref.close()
+            if not ref_err and not edited and case.get("valid_snippet", True):
+                fails.append(Failure("injection-caused-error", case,
+                                     "Method Status is Error after injecting a valid snippet; the same run without it is not"))
+            return fails
+        if snap["raw_tags"].get("System State") != "Running":
             return fails
         want_marks = [ln.strip().split("Mark: ")[1] for ln in case["snippet"].splitlines() if "Mark: " in ln]
+        if case.get("second"):
+            want_marks += [ln.strip().split("Mark: ")[1] for ln in case["second"][1].splitlines() if "Mark: " in ln]
         got = Counter(marks_of(snap))
         sfx = "-after-edit" if edited else ""
         for m in want_marks:
@@ -87,9 +105,25 @@ WITNESS = {"pcode": "Wait: 3s\nMark: b", "at": 6, "snippet": "Wait: 1s\nMark: in
            "edit": [2, [["append", "Mark: c"]]], "method_has_cmds": False}
 
 
+def template_cases() -> list[dict]:
+    out = []
+    methods = ["Mark: A\nWait: 3s\nMark: B", "Block: K\n    Mark: A\n    Wait: 3s\n    End block\nMark: B"]
+    snippets = ["Mark: i1", "Wait: 1s\nMark: i1", "Watch: T0 = 0\n    Mark: i1\n    Mark: i1b", "Block: Q\n    Mark: i1\n    End block",
+                "Alarm: T0 = 0\n    Mark: i1\n    Wait: 20s", "CmdB\nMark: i1"]
+    for m in methods:
+        for sn in snippets:
+            for at in (4, 9):
+                out.append({"pcode": m, "at": at, "snippet": sn, "after": 70, "method_has_cmds": False})
+                # a second snippet while the first is still alive
+                for gap in (0, 1, 3):
+                    out.append({"pcode": m, "at": at, "snippet": sn, "after": 70, "method_has_cmds": False,
+                                "second": [gap, "Mark: i2"]})
+    return out
+
+
 def gen_cases(ctx: Check, n: int) -> list[dict]:
     rng = ctx.rng
-    out = [WITNESS] + [k["witness"] for k in ctx.known if k.get("witness")]
+    out = [WITNESS] + [k["witness"] for k in ctx.known if k.get("witness")] + template_cases()
     for _ in range(n):
         has_cmds = rng.random() < 0.3
         feats = {"mark", "wait", "thr", "watch"} | ({"cmd"} if has_cmds else set())
